@@ -87,15 +87,21 @@ func UnlockEnvelope(
 		// Extract shares from the grant, deduplicating by ID.
 		g := group.Ristretto255
 		for _, s := range inner.GetShares() {
-			idKey := hex.EncodeToString(s.GetId())
-			if _, dup := seen[idKey]; dup {
-				continue
-			}
-
 			id := g.NewScalar()
 			if err := id.UnmarshalBinary(s.GetId()); err != nil {
 				continue
 			}
+			// de-duplicate on the canonical encoding of the decoded id:
+			// different byte strings can decode to the same scalar.
+			idCanon, err := id.MarshalBinary()
+			if err != nil {
+				continue
+			}
+			idKey := hex.EncodeToString(idCanon)
+			if _, dup := seen[idKey]; dup {
+				continue
+			}
+
 			val := g.NewScalar()
 			if err := val.UnmarshalBinary(s.GetValue()); err != nil {
 				continue
